@@ -84,6 +84,7 @@ fn acct_plans(prop: &'static str, thorough: bool) -> Vec<Plan> {
                 ("full_exit", small_funds(|| seed_full_exit(&k), 250)),
                 ("sweep", small_funds(|| seed_sweep(&k), 250)),
                 ("ten_batches", small_funds(|| seed_ten_batches(&k), 250)),
+                ("mixed_refundable", small_funds(|| seed_mixed_refundable(&k, seed_received(&k), false), 250)),
                 ("mid_amounts", small_funds(|| seed_mid_amounts(&k), 250)),
                 ("many_rewards", small_funds(|| seed_many_rewards(&k), 250)),
                 // two refundable staked-asset transfers while the contract also holds a received batch
@@ -158,7 +159,7 @@ fn acct_plans(prop: &'static str, thorough: bool) -> Vec<Plan> {
                 v
             }));
         }
-        let depth = if thorough { 6 } else { 4 };
+        let depth = if thorough { 5 } else { 4 };
         out.push(Plan { sc, depth, required: vec!["goal:refund_resent", "goal:first_stake_into_empty_pool", "goal:ownerless_stake_swept", "goal:withdrawn", "SubmitBatch:ok", "HookReceiveRewards:ok", "HookReceiveUnstakedTokens:ok"] });
     }
     out
@@ -177,6 +178,8 @@ fn solv_plans(thorough: bool) -> Vec<Plan> {
                 ("submitted", small_funds(|| seed_submitted(&k), 150)),
                 ("received", small_funds(|| seed_received(&k), 150)),
                 ("ten_batches", small_funds(|| seed_ten_batches(&k), 150)),
+                ("mixed_refundable", small_funds(|| seed_mixed_refundable(&k, seed_received(&k), false), 150)),
+                ("mixed_refundable_lst_lowest", small_funds(|| seed_mixed_refundable(&k, seed_received(&k), true), 150)),
                 ("mid_received", small_funds(|| seed_mid_received(&k), 150)),
                 ("many_rewards", small_funds(|| seed_many_rewards(&k), 150)),
             ],
@@ -262,6 +265,7 @@ fn lst_plans(thorough: bool) -> Vec<Plan> {
                 ("rate_up_queued", q(seed_rate_up, &k)),
                 ("rate_down_queued", q(seed_rate_down, &k)),
                 ("mid_amounts", small_funds(|| seed_mid_amounts(&k), 250)),
+                ("mixed_refundable", small_funds(|| seed_mixed_refundable(&k, seed_two_stakes(&k), false), 250)),
             ],
         );
         let mut o = MenuOpt::base();
@@ -360,6 +364,7 @@ fn wd_plans(thorough: bool) -> Vec<Plan> {
     let mut seeds = vec![("three_rate1", small_funds(|| three(&k, false), 0)), ("three_rate_up", small_funds(|| three(&k, true), 0))];
     seeds.push(("four_requesters", small_funds(|| seed_four_requesters(&k), 0)));
     seeds.push(("ten_batches", small_funds(|| seed_ten_batches(&k), 0)));
+    seeds.push(("thirty_three_batches", small_funds(|| seed_n_batches(&k, 33, true, false), 0)));
     seeds.push(("mid_received", small_funds(|| seed_mid_received(&k), 0)));
     if thorough {
         seeds.push(("two_batches", small_funds(|| two_batches(&k), 0)));
@@ -438,6 +443,7 @@ fn life_plans(thorough: bool) -> Vec<Plan> {
             ("two_stakes", small_funds(|| seed_two_stakes(&k), 0)),
             ("rate_up", small_funds(|| seed_rate_up(&k), 0)),
             ("ten_batches", small_funds(|| seed_ten_batches(&k), 0)),
+            ("eight_submitted", small_funds(|| seed_n_batches(&k, 8, false, false), 0)),
             ("far_future", small_funds(|| seed_far_future(&k), 0)),
         ],
     );
@@ -461,7 +467,14 @@ fn life_plans(thorough: bool) -> Vec<Plan> {
         // deliveries for every batch id (also pending / received / unknown), from the staker's hook
         // account and from the reward collector's, at the current time
         let maxid = s.m.batches.len() as u64 + 1;
-        for b in 0..=maxid {
+        let mut ids: Vec<u64> = vec![0, s.m.pending, maxid];
+        let subm: Vec<u64> = s.m.batches.values().filter(|b| b.status == MStatus::Submitted).map(|b| b.id).collect();
+        ids.extend(subm.first());
+        ids.extend(subm.last());
+        ids.extend(s.m.batches.values().find(|b| b.status == MStatus::Received).map(|b| b.id));
+        ids.sort();
+        ids.dedup();
+        for b in ids {
             let exp = s.m.batches.get(&b).and_then(|x| x.expected).unwrap_or(25).max(1);
             let d = deliver(s, b, exp);
             if !a.contains(&d) {
@@ -514,7 +527,7 @@ fn life_plans(thorough: bool) -> Vec<Plan> {
         }
         g
     }));
-    let depth = if thorough { 9 } else { 7 };
+    let depth = if thorough { 10 } else { 7 };
     vec![Plan {
         sc,
         depth,
@@ -531,6 +544,11 @@ fn life_plans(thorough: bool) -> Vec<Plan> {
 // ---------------------------------------------------------------- C07: IBC tracking / recovery
 fn refundable_seed(k: &K, n: usize) -> Sim {
     refundable_seed_from(k, n, 1)
+}
+
+/// a second staked-asset denom the admin may switch the configuration to
+pub fn denom2() -> String {
+    format!("ibc/{}", "27394FB092D2ECCD56123C74F36E4C1F926001CEADA9CA97EA622B25F41E5EB2")
 }
 
 /// like `refundable_seed`, with the channel's sequence counter starting at `first_seq`
@@ -559,6 +577,18 @@ fn ibc_plans(thorough: bool) -> Vec<Plan> {
             ("rate_up", small_funds(|| seed_rate_up(&k), 120)),
             ("refundable11", small_funds(|| refundable_seed(&k, 11), 40)),
             ("refundable12_from_seq8", small_funds(|| refundable_seed_from(&k, 12, 8), 40)),
+            ("mixed_refundable", small_funds(|| seed_mixed_refundable(&k, seed_two_stakes(&k), false), 60)),
+            ("mixed_refundable_lst_lowest", small_funds(|| seed_mixed_refundable(&k, seed_two_stakes(&k), true), 60)),
+            ("refundable2_two_denoms", small_funds(
+                || {
+                    // the admin can change the staked-asset denom (a new channel gives a new ibc/ hash):
+                    // users also hold the second denom
+                    let mut s = refundable_seed(&k, 2);
+                    s.w.credit(&u(1), &denom2(), 100);
+                    s
+                },
+                60,
+            )),
         ];
         if thorough {
             seeds.push(("refundable2", small_funds(|| refundable_seed(&k, 2), 60)));
@@ -573,7 +603,19 @@ fn ibc_plans(thorough: bool) -> Vec<Plan> {
             let staker = n20(&kk, "staker");
             let outstanding = s.m.packets.len();
             let sent_new = s.w.ibc.next_seq <= 16 + s.g.seed_seq;
-            if outstanding < maxk && sent_new {
+            let cfg = s.w.config();
+            let cur_denom = cfg.protocol_chain_config.ibc_token_denom.clone();
+            if cur_denom != sd() {
+                // after a denom change stakes are paid in the configured denom
+                if outstanding < maxk && sent_new && s.w.bal(&u(1), &cur_denom) >= 20 {
+                    a.push(hold(exec(&u(1), ExecuteMsg::LiquidStake { mint_to: None, transfer_to_native_chain: None, expected_mint_amount: None }, vec![(cur_denom.clone(), 20)])));
+                }
+            } else if s.w.bal(&u(1), &denom2()) >= 20 && s.refundable().next().is_some() {
+                let mut pc = instantiate_msg(&kk).protocol_chain_config;
+                pc.ibc_token_denom = denom2();
+                a.push(exec(&adm(), ExecuteMsg::UpdateConfig { native_chain_config: None, protocol_chain_config: Some(pc), protocol_fee_config: None, monitors: None, batch_period: None }, vec![]));
+            }
+            if outstanding < maxk && sent_new && cur_denom == sd() {
                 if s.w.bal(&u(1), &sd()) >= 20 {
                     a.push(hold(stake(&u(1), 20)));
                     a.push(hold(stake_to(&u(1), 20, Some(n1.clone()), Some(true), None)));
@@ -773,7 +815,7 @@ fn fee_plans(thorough: bool) -> Vec<Plan> {
             }
             g
         }));
-        let depth = if thorough { 6 } else { 4 };
+        let depth = if thorough { 7 } else { 4 };
         out.push(Plan { sc, depth, required: vec!["goal:fees_withdrawn", "goal:fee_accrued", "goal:fee_paid_directly", "goal:withdrawn_to_changed_treasury"] });
     }
     out
@@ -802,7 +844,32 @@ pub fn panic_plans(thorough: bool) -> Vec<Plan> {
     out
 }
 
+/// seeds with long scripted prefixes (many batches) are explored in a plan of their own, at a
+/// smaller depth: their states are large and their menus wide
+fn is_deep(seed: &str) -> bool {
+    ["ten_batches", "thirty_three_batches", "eight_submitted"].iter().any(|d| seed.ends_with(d))
+}
+
 pub fn plans(prop: &str, thorough: bool) -> Vec<Plan> {
+    let mut out = vec![];
+    for mut p in plans_all(prop, thorough) {
+        p.sc.seeds.retain(|(n, _)| !is_deep(n));
+        out.push(p);
+    }
+    for mut p in plans_all(prop, thorough) {
+        p.sc.seeds.retain(|(n, _)| is_deep(n));
+        if p.sc.seeds.is_empty() {
+            continue;
+        }
+        p.sc.name = format!("{}+deep", p.sc.name);
+        p.depth = if thorough { 4 } else { 3 };
+        p.required = vec![];
+        out.push(p);
+    }
+    out
+}
+
+fn plans_all(prop: &str, thorough: bool) -> Vec<Plan> {
     match prop {
         "C01" => acct_plans("C01", thorough),
         "C15" => acct_plans("C15", thorough),
@@ -823,7 +890,7 @@ pub fn scenarios(prop: &str, thorough: bool) -> Vec<StakingScenario> {
 pub fn run(prop: &str, thorough: bool) -> i32 {
     let mut r = Runner::new(prop, if thorough { "thorough" } else { "quick" });
     for p in plans(prop, thorough) {
-        let lim = Limits { max_depth: p.depth, max_states: if thorough { 30_000_000 } else { 3_000_000 }, max_wall_s: if thorough { 3000.0 } else { 240.0 } };
+        let lim = Limits { max_depth: p.depth, max_states: if thorough { 30_000_000 } else { 3_000_000 }, max_wall_s: if thorough { 1500.0 } else { 240.0 } };
         // the lifecycle and IBC searches are additionally explored by a second, independently written
         // engine (stateright BFS); both engines must reach exactly the same set of worlds
         if matches!(prop, "C06" | "C07") || (thorough && prop == "C05") {
